@@ -53,7 +53,8 @@ type gen struct {
 
 // literals: byte-prefix related ones, escaped ones (a leading ':' or '*' is written with a backslash
 // in the expression), also as the whole segment
-var allLits = []string{"foo", "foobar", "bar", "fo", ":x", "*y", "f:o", "qux", "*", ":"} //nolint:gochecknoglobals
+// (and a leading backslash itself)
+var allLits = []string{"foo", "foobar", "bar", "fo", ":x", "*y", "f:o", "qux", "*", ":", `\q`} //nolint:gochecknoglobals
 
 func (g *gen) pick(s []string) string { return s[g.rng.Intn(len(s))] }
 
@@ -671,6 +672,12 @@ func (g *gen) probes(sets map[string][]Rule, _ []Rule) []Req {
 
 	add := func(p []string) {
 		k := strings.Join(p, "\x00") + fmt.Sprint(len(p))
+		// a backslash cannot be sent as such (clients encode it, and what an encoded octet matches is
+		// C08's subject): expressions with it are loaded, changed and removed, but not requested
+		if strings.Contains(k, `\`) {
+			return
+		}
+
 		if !seen[k] && len(p) > 0 {
 			seen[k] = true
 			paths = append(paths, p)
